@@ -4,12 +4,12 @@ CONSTANTS
   MaxRule = 2
   MaxHost = 3
   Mode = "policy"
-  PMode = "history"
+  PMode = "broker"
   ProxyPats <- DefaultProxyPats
-  CacheKey = "effective"
+  CacheKey = "none"
   HistRule = 1
   HistLen = 3
-  AllowedAlphabet <- PlainAlphabet
+  AllowedAlphabet <- WideAllowedAlphabet
   PollAlphabet <- CaseBlankAlphabet
 SPECIFICATION PSpec
 INVARIANTS HistoryIndependent RejectedNeverRegistered ExplicitReject RegisteredAcceptsAllowed
